@@ -7,6 +7,11 @@ VERIF = os.path.dirname(os.path.dirname(os.path.abspath(__file__)))
 
 # id -> (level, technique, level text, level note, design ref)
 CLAIMED = {
+    "C12": ("exploration",
+            "deterministic simulation (scoped): structure-aware corruption of messages in a live inbound stream, parsed on the reader task and then touched by consumer, rule-matching, dispatch and caller tasks; oracle = no task panics",
+            "A hostile raw peer corrupts messages of all four types with 14 operators (hostile header strings, wrong-typed / missing / duplicated fields, invalid or deep signatures, bit flips, length edits that keep the frame consistent, fd counts, garbage bodies) while an unfiltered consumer reads every accessor and formats the message, rule streams match on arguments, an object server dispatches and a method call is pending. Any panic in any task is a violation.",
+            "Scoped: 'every byte string' is a pure-function quantifier that simulation does not cover; this decides only the part where a corrupted message is parsed on one task and used on others.",
+            "DESIGN.md §3 C12"),
     "C33": ("exploration",
             "deterministic simulation: macro-generated async proxy (task) and blocking proxy (simulator-driven real thread) against the macro-generated interface over a pair of real connections; typed model of the handlers",
             "An async proxy on a task and a blocking proxy on a baton thread call every method of the corpus interface with seeded values, read and write its properties and receive its signal, under seeded schedules and read splits. Results, handler-side argument values, property read-after-write and both signal streams must match a typed model.",
